@@ -60,7 +60,7 @@ fn cursor_offsets(chars: usize) -> Vec<usize> {
 pub fn c05_scale(rep: &mut Report, tier: &str, seed: u64) {
     let quick = tier == "quick";
     let mut dcaps = caps(tier);
-    dcaps.max_depth = 2;
+    dcaps.max_depth = if quick { 2 } else { 3 };
     dcaps.max_states = 8_000_000;
     let alphabet = vec![ch('a'), ch('é'), ch('𝄞'), k(Key::Bs), k(Key::Left), k(Key::Right)];
     let cbs: Vec<usize> = if quick { vec![258] } else { vec![66, 130, 258, 300, 515] };
@@ -344,7 +344,7 @@ pub fn c06_scale(rep: &mut Report, tier: &str, seed: u64, prop: &'static str) {
             }
         }
         let mut d1 = dcaps.clone();
-        d1.max_depth = 1;
+        d1.max_depth = if quick { 1 } else { 2 };
         let mut cfg = base_cfg(
             prop,
             format!("screen scale cb={} hb={} cmd4 (every cursor position of {} long lines x every event)", cb, hb, sweeps.len()),
@@ -366,7 +366,7 @@ pub fn c06_scale(rep: &mut Report, tier: &str, seed: u64, prop: &'static str) {
 pub fn c01_scale(rep: &mut Report, tier: &str, seed: u64) {
     let quick = tier == "quick";
     let mut dcaps = caps(tier);
-    dcaps.max_depth = 2;
+    dcaps.max_depth = if quick { 2 } else { 3 };
     let mon = Mon { dispatch: true, invariants: true, ..Default::default() };
     let alphabet = vec![ch('a'), ch(' '), ch('"'), ch('é'), k(Key::Bs), k(Key::Left), k(Key::Up), k(Key::Lf), k(Key::Cr)];
     let (cb, hb) = (300usize, 100usize);
